@@ -4,6 +4,7 @@ import RactorModel.Lemmas.PgConcGlob
 import RactorModel.Lemmas.PgConcNotify
 import RactorModel.Lemmas.PgConcLin
 import RactorModel.Lemmas.PgConcLeak
+import RactorModel.Lemmas.PgConcHold
 
 /-!
 # C11 — process groups reflect live membership and tell their monitors
@@ -639,6 +640,31 @@ theorem conc_payload_sound (g : Conc.G) (t : Conc.Tid) :
       (p.isJoin = false → x ∉ membersOf (Conc.step g t).st (p.s, p.g)) :=
   Conc.payload_step g t
 
+/-- **The lock table is the holders' local state.** For every schedule (no thread starts inside an entry
+region): a thread inside `join_scoped`'s entry region is the recorded holder of that group entry, the table
+carries its own `actors`, what it still has to look at is among them — so the robustness guard
+`x ∈ asOf …` in `joinOne` never fires (`joinOne` accepts exactly the actors that pass the status re-check),
+and two threads are never inside the entry region of the same group. -/
+theorem conc_join_guard_vacuous (ops : List Op) (calls : List Conc.Pc) (sched : List Conc.Tid)
+    (hfresh : ∀ pc ∈ calls, ∀ s g as todo, pc ≠ .joinIn s g as todo) :
+    let g := Conc.run (g0 ops calls) sched
+    (∀ (i s g' : Nat) (as todo : List Nat) (x : Nat), g.thr[i]? = some (.joinIn s g' as (x :: todo)) →
+      (Conc.asOf g (s, g')).contains x = true) ∧
+    (∀ (i j s g' : Nat) (as as' todo todo' : List Nat), g.thr[i]? = some (.joinIn s g' as todo) →
+      g.thr[j]? = some (.joinIn s g' as' todo') → i = j) := by
+  intro g
+  have h0 : Conc.HoldInv (g0 ops calls) := by
+    intro i s g' as todo hi
+    exact absurd rfl (hfresh _ (List.mem_of_getElem? hi) s g' as todo)
+  have h : Conc.HoldInv g := Conc.holdInv_run h0 sched
+  refine ⟨fun i s g' as todo x hp => Conc.join_guard_true h hp, ?_⟩
+  intro i j s g' as as' todo todo' hi hj
+  obtain ⟨⟨acc, hacc⟩, _⟩ := h i s g' as todo hi
+  obtain ⟨⟨acc', hacc'⟩, _⟩ := h j s g' as' todo' hj
+  rw [hacc] at hacc'
+  simp only [Option.some.injEq, Prod.mk.injEq] at hacc'
+  exact hacc'.1
+
 /-- **No reverse-index leak under interleaving.** For every schedule: the reverse-index ENTRY of an actor
 whose exit has finished (or that was stopping from the start) exists only while some `monitor` /
 `monitor_scope` call naming it is between its `get_or_create_actor_relations` and the end of its re-check
@@ -740,3 +766,4 @@ end C11
 #print axioms C11.conc_inv
 #print axioms C11.conc_no_reverse_index_leak
 #print axioms C11.conc_payload_sound
+#print axioms C11.conc_join_guard_vacuous
